@@ -55,7 +55,24 @@ pub struct SwCase {
     pub pipeline: bool,
     /// fork instead of switch: (trigger key indices)
     pub fork: Option<Vec<usize>>,
+    /// the environment is built by typing (key and input histories, timing, held inputs)
+    pub hist: Option<HistCase>,
 }
+
+/// Typing before the switch key is pressed, and the leaves its cases test (one leaf per case,
+/// every case with `fallthrough`, so that one press reports the truth of every leaf).
+#[derive(Clone, Debug, PartialEq, Eq, Hash)]
+pub struct HistCase {
+    pub chords_v2: bool,
+    /// (key 0-9 = a-j, 10 = the layer-while-held key; gap before it; held until the end?)
+    pub taps: Vec<(u8, u8, bool)>,
+    pub final_gap: u8,
+    /// (kind 0 key-history / 1 input-history / 2 key-timing / 3 input real, key, recency 1-8, selector)
+    pub leaves: Vec<(u8, u8, u8, u8)>,
+}
+const HKEYS: [&str; 12] = ["a", "b", "c", "d", "e", "f", "g", "h", "i", "j", "l", "s"];
+const HGAPS: [u64; 4] = [3, 10, 40, 100];
+const HDELTA: [i64; 4] = [-40, -20, 20, 40];
 
 fn leaf_text(l: &Leaf) -> String {
     match l {
@@ -289,7 +306,9 @@ impl Case for SwCase {
         json!({"config": cfg_text(self),
             "cases": self.cases.iter().map(|(items, b)| json!({"items": items.iter().map(expr_json).collect::<Vec<_>>(), "break": b})).collect::<Vec<_>>(),
             "envs": self.envs.iter().map(env_json).collect::<Vec<_>>(), "pipeline": self.pipeline,
-            "fork": self.fork.as_ref().map(|t| t.iter().map(|k| KEYS[*k]).collect::<Vec<_>>())})
+            "fork": self.fork.as_ref().map(|t| t.iter().map(|k| KEYS[*k]).collect::<Vec<_>>()),
+            "hist": self.hist.as_ref().map(|h| json!({"config": hist_cfg_text(h), "chords_v2": h.chords_v2, "taps": h.taps.iter().map(|(k, g, hold)| json!([k, g, hold])).collect::<Vec<_>>(), "final_gap": h.final_gap,
+                "leaves": h.leaves.iter().map(|(a, b, c, d)| json!([a, b, c, d])).collect::<Vec<_>>()}))})
     }
     fn from_json(v: &Value) -> Option<Self> {
         Some(SwCase {
@@ -304,6 +323,17 @@ impl Case for SwCase {
                 None
             } else {
                 Some(v["fork"].as_array()?.iter().map(|x| KEYS.iter().position(|k| Some(*k) == x.as_str())).collect::<Option<Vec<_>>>()?)
+            },
+            hist: if v["hist"].is_object() {
+                let h = &v["hist"];
+                Some(HistCase {
+                    chords_v2: h["chords_v2"].as_bool()?,
+                    taps: h["taps"].as_array()?.iter().map(|t| Some((t[0].as_u64()? as u8, t[1].as_u64()? as u8, t[2].as_bool()?))).collect::<Option<Vec<_>>>()?,
+                    final_gap: h["final_gap"].as_u64()? as u8,
+                    leaves: h["leaves"].as_array()?.iter().map(|t| Some((t[0].as_u64()? as u8, t[1].as_u64()? as u8, t[2].as_u64()? as u8, t[3].as_u64()? as u8))).collect::<Option<Vec<_>>>()?,
+                })
+            } else {
+                None
             },
         })
     }
@@ -559,6 +589,139 @@ fn run_switch(c: &SwCase) -> Verdict {
     v
 }
 
+
+/// The times (ms) at which the keys of a typed history are pressed, and the switch key.
+fn hist_plan(h: &HistCase) -> (Vec<(usize, u64, bool)>, u64) {
+    let mut t = 0u64;
+    let mut held = [false; 12];
+    let mut presses = vec![];
+    for (k, g, hold) in &h.taps {
+        let k = (*k as usize) % 11;
+        if held[k] {
+            continue;
+        }
+        t += HGAPS[*g as usize % 4];
+        let hold = *hold || k == 10;
+        presses.push((k, t, hold));
+        if hold {
+            held[k] = true;
+        } else {
+            t += 3;
+        }
+    }
+    t += HGAPS[h.final_gap as usize % 4];
+    (presses, t)
+}
+/// Text of leaf i (key-timing thresholds are placed 20 or 40 ms away from the true age).
+fn hist_leaf(h: &HistCase, i: usize) -> (String, bool) {
+    let (presses, ts) = hist_plan(h);
+    let (kind, key, rec, sel) = h.leaves[i];
+    let key = key as usize % 12;
+    let r = (rec as usize % 8) + 1;
+    // most recent first
+    let mut inputs: Vec<usize> = presses.iter().map(|p| p.0).collect();
+    inputs.push(11);
+    inputs.reverse();
+    let keys: Vec<(usize, u64)> = presses.iter().rev().filter(|p| p.0 < 10).map(|p| (p.0, p.1)).collect();
+    match kind % 4 {
+        0 => {
+            let key = key % 10;
+            (format!("(key-history {} {r})", HKEYS[key]), keys.get(r - 1).map(|x| x.0 == key).unwrap_or(false))
+        }
+        1 => (format!("(input-history real {} {r})", HKEYS[key]), inputs.get(r - 1).map(|x| *x == key).unwrap_or(false)),
+        2 => {
+            let r = if keys.is_empty() { 1 } else { (rec as usize % keys.len().min(8)) + 1 };
+            match keys.get(r - 1) {
+                Some((_, tp)) => {
+                    let age = (ts - tp) as i64;
+                    let mut d = HDELTA[sel as usize % 4];
+                    if age + d < 1 {
+                        d = 20;
+                    }
+                    let lt = sel & 4 == 0;
+                    (format!("(key-timing {r} {} {})", if lt { "lt" } else { "gt" }, age + d), if lt { d > 0 } else { d < 0 })
+                }
+                // nothing typed yet: not generated as a timing test
+                None => (format!("(input real {})", HKEYS[key % 11]), presses.iter().any(|p| p.0 == key % 11 && p.2)),
+            }
+        }
+        // (whether the switch key itself counts as an active input while its own switch is
+        // evaluated is not documented: not asked)
+        _ => (format!("(input real {})", HKEYS[key % 11]), presses.iter().any(|p| p.0 == key % 11 && p.2)),
+    }
+}
+fn hist_cfg_text(h: &HistCase) -> String {
+    let mut s = String::from("(defcfg log-layer-changes no");
+    if h.chords_v2 {
+        s.push_str(" concurrent-tap-hold yes");
+    }
+    s.push_str(")\n(defsrc a b c d e f g h i j l s y z)\n(deflayer base a b c d e f g h i j (layer-while-held nav) (switch");
+    for i in 0..h.leaves.len() {
+        s.push_str(&format!(" ({}) {} fallthrough", hist_leaf(h, i).0, OUTS[i]));
+    }
+    s.push_str(") y z)\n(deflayer nav _ _ _ _ _ _ _ _ _ _ _ _ _ _)\n");
+    if h.chords_v2 {
+        s.push_str("(defchordsv2 (y z) x 50 all-released ())\n");
+    }
+    s
+}
+fn run_hist(h: &HistCase) -> Verdict {
+    if h.leaves.is_empty() || h.leaves.len() > 7 {
+        return Verdict::discard("leaf-count");
+    }
+    let text = hist_cfg_text(h);
+    let mut sim = match Sim::new(&text) {
+        Ok(s) => s,
+        Err(e) => return Verdict::failed("harness:switch-config-rejected", format!("{text}\n{e}")),
+    };
+    let (presses, ts) = hist_plan(h);
+    for (k, t, hold) in &presses {
+        sim.tick_n(*t - sim.ticks);
+        sim.press(code_of(HKEYS[*k]));
+        if !*hold {
+            sim.tick_n(3);
+            sim.release(code_of(HKEYS[*k]));
+        }
+    }
+    sim.tick_n(ts - sim.ticks);
+    let before = sim.outs.len();
+    sim.press(code_of("s"));
+    sim.tick_n(14);
+    let out_codes: Vec<u16> = OUTS.iter().map(|n| code_of(n)).collect();
+    let mut fired: Vec<usize> = sim.outs[before..].iter().filter_map(|o| if let OutEv::Down(k) = o.ev { out_codes.iter().position(|c| *c == k) } else { None }).collect();
+    fired.sort();
+    fired.dedup();
+    sim.release(code_of("s"));
+    sim.tick_n(5);
+    for (k, _, hold) in presses.iter().rev() {
+        if *hold {
+            sim.release(code_of(HKEYS[*k]));
+            sim.tick_n(2);
+        }
+    }
+    sim.tick_n(20);
+    let want: Vec<usize> = (0..h.leaves.len()).filter(|i| hist_leaf(h, *i).1).collect();
+    let mut v = Verdict::pass(true);
+    if fired != want {
+        let typed: Vec<String> = presses.iter().map(|(k, t, hold)| format!("{}{}@{t}", HKEYS[*k], if *hold { "(held)" } else { "" })).collect();
+        return Verdict::failed(
+            "mismatch:switch-typed-history",
+            format!("{text}typed {typed:?}, switch key at {ts} ms: cases {fired:?} fired, the written conditions are true for {want:?}\noutput {}", crate::sim::fmt_outs(&sim.outs)),
+        );
+    }
+    v.classes.push("typed-history");
+    if h.chords_v2 {
+        v.classes.push("typed-history-with-chords-v2");
+    }
+    if presses.iter().filter(|p| p.0 < 10).count() >= 8 {
+        v.classes.push("typed-history>=8-keys");
+    }
+    if presses.iter().any(|p| p.0 == 10) {
+        v.classes.push("typed-history-layer-key-held");
+    }
+    v
+}
+
 fn run_pipeline(c: &SwCase) -> Verdict {
     // hold the active keys physically, then press the switch / fork key; compare output
     let text = cfg_text(c);
@@ -630,7 +793,7 @@ impl TypedProp for C10 {
     fn info(&self) -> PropInfo {
         PropInfo {
             level: "translation_validation",
-            rule: "programs: switch condition expressions printed from an AST, compiled by the real parser, and evaluated by the real Switch::actions on generated environments (active keys, active inputs real/virtual, key and input histories with ages, layer stack, base layer); compared with a reference evaluation of the written expression (not = none of, top-level list = or, empty list = default case, cases top to bottom, break stops, key-timing at the documented rounded-down resolution, lt = at most, gt = more than). Exhaustive part: every expression shape of up to N nodes (N=6 quick, 7 thorough; and/or/not with 1-3 operands over key leaves a,b,c) x all 8 truth assignments. Random part: expressions up to 200 nodes / depth 7 over all seven leaf kinds, 1-12 cases with break/fallthrough, 6 environments each. Pipeline part: held keys + press of the switch / fork key through the whole state machine. Non-trivial: every program (each is a distinct compiled expression).",
+            rule: "programs: switch condition expressions printed from an AST, compiled by the real parser, and evaluated by the real Switch::actions on generated environments (active keys, active inputs real/virtual, key and input histories with ages, layer stack, base layer); compared with a reference evaluation of the written expression (not = none of, top-level list = or, empty list = default case, cases top to bottom, break stops, key-timing at the documented rounded-down resolution, lt = at most, gt = more than). Exhaustive part: every expression shape of up to N nodes (N=6 quick, 7 thorough; and/or/not with 1-3 operands over key leaves a,b,c) x all 8 truth assignments. Random part: expressions up to 200 nodes / depth 7 over all seven leaf kinds, 1-12 cases with break/fallthrough, 6 environments each. Pipeline part: held keys + press of the switch / fork key through the whole state machine. Typed-history part (a quarter of the random cases): 0-12 keys are typed (tapped or held, among them a layer-while-held key, gaps 3-100 ms, with or without a defchordsv2 block in the configuration), then a switch key whose 1-6 cases each test one key-history / input-history / key-timing / input-real leaf with fallthrough; the cases that fire must be exactly the leaves that are true of what was typed (recency 1 of input-history = the switch key itself; key-timing thresholds 20 or 40 ms away from the true age). Non-trivial: every program (each is a distinct compiled expression).",
             assumptions: vec!["the environment handed to Switch::actions is generated directly, so history ages and the lossy key-timing ranges are exercised without waiting".into()],
             extra: BTreeMap::new(),
         }
@@ -645,7 +808,7 @@ impl TypedProp for C10 {
                 },
             exhaustive: false,
             distinct_by_construction: false,
-            required_classes: vec!["switch-direct", "switch-pipeline", "fork-pipeline", "trigger-held-by-macro", "depth>=6", "cases>=8", "nodes>=20", "exhaustive-shape"],
+            required_classes: vec!["switch-direct", "switch-pipeline", "fork-pipeline", "trigger-held-by-macro", "typed-history", "typed-history-with-chords-v2", "typed-history>=8-keys", "typed-history-layer-key-held", "depth>=6", "cases>=8", "nodes>=20", "exhaustive-shape"],
             hang_secs: 60,
         }
     }
@@ -658,11 +821,37 @@ impl TypedProp for C10 {
                 envs: all_assignments(),
                 pipeline: false,
                 fork: None,
+                hist: None,
             });
         }
-        Gen::Strat(((idx - e) % 8 == 0) as u32)
+        match (idx - e) % 8 {
+            0 => Gen::Strat(1),
+            1 | 5 => Gen::Strat(2),
+            _ => Gen::Strat(0),
+        }
     }
     fn strategy(&self, _tier: Tier, key: u32) -> BoxedStrategy<SwCase> {
+        if key == 2 {
+            return (
+                any::<bool>(),
+                prop::collection::vec((0u8..11, 0u8..4, prop::bool::weighted(0.2)), 0..13),
+                0u8..4,
+                prop::collection::vec((0u8..4, 0u8..12, 0u8..8, 0u8..8), 1..7),
+            )
+                .prop_map(|(chords_v2, taps, final_gap, leaves)| SwCase {
+                    cases: vec![],
+                    envs: vec![],
+                    pipeline: false,
+                    fork: None,
+                    hist: Some(HistCase {
+                        chords_v2,
+                        taps,
+                        final_gap,
+                        leaves,
+                    }),
+                })
+                .boxed();
+        }
         if key == 1 {
             // pipeline cases: key leaves only
             let kexpr = (0usize..5).prop_map(|k| Expr::L(Leaf::Key(k))).prop_recursive(4, 24, 3, |inner| {
@@ -693,6 +882,7 @@ impl TypedProp for C10 {
                         }],
                         pipeline: true,
                         fork,
+                        hist: None,
                     }
                 })
                 .boxed();
@@ -735,10 +925,14 @@ impl TypedProp for C10 {
                 envs,
                 pipeline: false,
                 fork: None,
+                hist: None,
             })
             .boxed()
     }
     fn judge(&self, case: &SwCase) -> Verdict {
+        if let Some(h) = &case.hist {
+            return run_hist(h);
+        }
         if case.pipeline {
             return run_pipeline(case);
         }
